@@ -74,6 +74,7 @@ func TestC10Reloads(t *testing.T) {
 				case r := <-ch:
 					vlib.Eval()
 					if r.err != nil || !r.ok {
+						vlib.Violation(fmt.Sprintf("%s request not answered correctly: ok=%v err=%v", r.what, r.ok, r.err), "TestC10Reloads", nil)
 						t.Fatalf("VIOLATION C10: %s request %s (after %d reload signals, hooks=%s, upgrades=%q) was not answered correctly: ok=%v err=%v\n%s", r.what, when, hups, hooks, upgrades, r.ok, r.err, tail(a.log(), 1200))
 					}
 				case <-deadline:
